@@ -56,7 +56,7 @@ RAND = {'quick': 1400, 'thorough': 36000}       # random compositions
 REJECT_PER = {'quick': 12, 'thorough': 120}     # rejection cases per shape-sensitive operation
 HOSTILE_PER = {'quick': 3, 'thorough': 20}      # per (hostile corner, environment)
 FNINDEX_PER = {'quick': 8, 'thorough': 80}      # per (take|getitem, environment): negative function-valued index into a basis / stacked operand
-SIBLING_PER = {'quick': 3, 'thorough': 40}       # BINOP(OP(x;p), OP(y;q)) cases per operation (unary ufuncs: a third; key operations such as choose/take/stack: x4)
+SIBLING_PER = {'quick': 3, 'thorough': 40}       # BINOP(OP(x;p), OP(y;q)) cases per operation (unary ufuncs: a third; key operations such as choose/take/stack: x8)
 SIBLING_ENVS = ['const', 'plain', 'mixed', 'const', 'boundary', 'prod2', 'plain', 'const', 'mixed', 'prod3', 'plain', 'boundary']
 INTRANGE_PER = {'quick': 40, 'thorough': 1200}  # integer-range-sensitive compositions (x INTRANGE_WEIGHT per environment)
 INTRANGE_WEIGHT = {'const': 3., 'plain': 1.5, 'mixed': .5, 'boundary': .5, 'prod2': .4, 'prod3': .2}
@@ -873,7 +873,7 @@ def finalize(m, tier, seed):
 def sibling_reps(opname, per):
     from vlib.c07_ops import UNARY
     from vlib.c07_gen import SIBLING_KEY_OPS
-    return max(1, per // 3) if opname in UNARY else 4 * per if opname in SIBLING_KEY_OPS else per
+    return max(1, per // 3) if opname in UNARY else 8 * per if opname in SIBLING_KEY_OPS else per
 
 
 def sibling_floor(cov, tier):
